@@ -507,8 +507,19 @@ def narrow_shifts(facts, body):
             m = re.match(r"^(\d+)", str(amt.get("v", "")))
             if m and int(m.group(1)) < W[tn] - (1 if tn.startswith("i") else 0):
                 continue
-        out.append((x, tn, tw))
+        out.append((x, tn, tw, amt))
     return out
+
+
+def _amount_reaches(defs, amt, width):
+    """evidence, in the code itself, that the shift amount ranges beyond the narrow type's width: it is a value taken
+    modulo / masked with something larger than that width (a bit index inside a wider word)"""
+    for y in defs.closure(amt):
+        if y.get("k") == "Bin" and y.get("op") in ("%", "&"):
+            m = re.match(r"^(\d+)", str(strip(y["b"]).get("v", "")))
+            if m and ((y["op"] == "%" and int(m.group(1)) > width) or (y["op"] == "&" and int(m.group(1)) >= width)):
+                return True
+    return False
 
 
 def run_narrow_shift(facts, rep, modules=None):
@@ -520,7 +531,7 @@ def run_narrow_shift(facts, rep, modules=None):
             return n.get("T", "")
     syn = {"k": "Cast", "T": "u64", "e": {"k": "Bin", "op": "<<", "T": "i32", "a": {"k": "Lit", "v": "1"},
                                           "b": {"k": "Path", "res": "local", "lid": 1, "name": "k"}}}
-    if len(narrow_shifts(_F(), syn)) == 1:
+    if len(narrow_shifts(_F(), syn)) == 1 and len(narrow_shifts(_F(), syn)[0]) == 4:
         rep.ok(R, "self-test", "the matcher recognises `(1 << k) as u64` with an i32 shift", "rules/r_contra.py", nontrivial=False)
     else:
         rep.violation(R, "self-test", "the narrow-shift matcher no longer recognises its positive example")
@@ -536,7 +547,14 @@ def run_narrow_shift(facts, rep, modules=None):
         bad = narrow_shifts(facts, body)
         if bad:
             rep.fn(p)
-        for k, (x, tn, tw) in enumerate(bad):
+        bdefs = Defs(body) if bad else None
+        W_ = {"i8": 8, "u8": 8, "i16": 16, "u16": 16, "i32": 32, "u32": 32}
+        for k, (x, tn, tw, amt) in enumerate(bad):
+            if not _amount_reaches(bdefs, amt, W_.get(tn, 32) - (1 if tn.startswith("i") else 0)):
+                rep.unresolved(R, "%s/#%d" % (p, k), "a shift is performed in `%s` before being cast to `%s` (line %s); nothing in "
+                               "the function shows the amount can reach %d (a precondition may bound it)" %
+                               (tn, tw, x.get("l"), W_.get(tn, 32) - 1), facts.loc(p, x))
+                continue
             rep.violation(R, "%s/#%d" % (p, k), "a left shift by a run-time amount is performed in `%s` and only then cast to `%s` "
                           "(line %s): for amounts of %d or more it overflows — a panic in debug builds, the amount taken modulo "
                           "%d and the result sign-extended in release builds" % (tn, tw, x.get("l"), 31 if tn == "i32" else 0,
